@@ -1218,6 +1218,9 @@ def judge_accept(run, p: Params, out: Outcome) -> bool:
         sig = "accept/" + error_sig(e) + "@" + kind
         if "publishTime must be present" in e.msg:
             sig += "/" + p.case["template"]
+        if "Sequence number error" in e.msg and p.mup_s and p.tsbd_s and p.mup_s > p.tsbd_s:
+            # the refreshed manifest no longer overlaps the previous one: segments were skipped between the two
+            sig += "/mup>depth"
         seen.setdefault(sig, f"{where}: [{e.location}] {e.msg[:300]} (iteration {run.iterations}, "
                         f"{run.refreshes} refreshes, {len(run.errors)} errors in all)")
     for s, d in seen.items():
